@@ -70,9 +70,17 @@ pub uninterp spec fn reg_sent(cmd: Writes, bytes: Seq<u8>) -> bool;
 /// "a checked read of the SII control/status register (0x0502) of station `addr` returned `st`"
 pub uninterp spec fn sii_status_read(addr: u16, st: SiiControl) -> bool;
 impl WrappedRead {
+/*@fn file=src/command/reads.rs impl="impl WrappedRead" name=ignore_wkc canary=0
+    ensures r.command == self.command, r.wkc is None
+@*/
+/*@fn file=src/command/reads.rs impl="impl WrappedRead" name=with_wkc canary=0
+    ensures r.command == self.command, r.wkc == Some(wkc)
+@*/
     /// `receive::<SiiControl>` (unit wrapped): ANY status
     #[verifier::external_body]
     pub async fn receive_sii(self, maindevice: &MainDevice) -> (r: Result<SiiControl, Error>)
+        // C11: the SII status poll is a CHECKED read (exactly one device answered) - a silent device reads as "not busy, no error"
+        requires self.wkc == Some(1u16)
         ensures r is Ok ==> (match self.command { Reads::Fprd { address, register } => register == 0x0502 ==> sii_status_read(address, r->Ok_0), _ => true })
     { unimplemented!() }
 }
